@@ -10,6 +10,11 @@ Decided (structural; the global state machine over histories is NOT decided):
     swap_remove/remove of *the index returned by the lookup of that same call*; no pop/clear/truncate/retain - so
     a removal can only affect the connection that was looked up.  recv resets+removes only when the peer requested
     shutdown and the buffer is drained; send/update_credit refuse when the peer requested shutdown.
+ X5 isolation predicate: the predicate with which an incoming event selects its connection (the closure handed to
+    find/position in the event lookup, captures resolved to the lookup's parameters) is path-enumerated and folded
+    over perturbations of the 4-tuple: it is true iff event.source = connection peer, event.destination.cid = the
+    local CID and event.destination.port = connection local port; the same for the (peer, port) lookup used by the
+    public operations (true iff peer and local port both equal).
  X4 buffer return: every received packet, whatever the handler's outcome, returns its buffer (C19.Q1 on the receive
     queue's poll).
 """
@@ -21,13 +26,175 @@ EXPLANATION = ("Who-may-mutate and guard (control-dependence) queries over the M
                "enumerated from resolved Vec method calls and their index operands traced to the lookup result; accept/reset emission "
                "sites are checked for their guards; public operations are checked for lookup dominance.")
 CONFIGS = ['def', 'alloc', 'def-rel']    # these drivers need the `alloc` feature
-FLOORS = {'table_mutations': 4, 'public_ops': 6}
+FLOORS = {'selection_predicates': 2, 'table_mutations': 4, 'public_ops': 6}
 MGR = 'device::socket::connectionmanager::VsockConnectionManager'
 VEC = 'alloc::vec::Vec::<T, A>::'
 VEC2 = 'alloc::vec::Vec::<T>::'
 
 
+def canon_path(F, t, side, S=None, captured=None, fn=None):
+    """(base, [field names]) of the object a term denotes; references and dereferences are transparent.
+    side 'closure': param1 = captured environment, param2 = the iterated item; side 'parent': params named by type."""
+    def of_loc(loc, side):
+        _, root, path = loc
+        if root[0] == 'deref':
+            r = go(root[1], side)
+        elif root[0] == 'local' and side == 'parent' and S is not None:
+            v = local_value_of_ref(S, ('ref', ('loc', root, ())))
+            r = go(v, side) if v is not None else ('local%s' % (root[1:],), [])
+        else:
+            r = ('local%s' % (root[1:],), [])
+        if r is None:
+            return None
+        base, fs = r
+        fs = list(fs)
+        for pp in path:
+            if pp[0] == 'f':
+                fs.append(pp[1])
+            elif pp[0] in ('idx', 'cidx'):
+                fs.append('[]')
+        if base == 'env' and fs and side == 'closure':
+            k = int(fs[0])
+            if captured is None or k >= len(captured):
+                return None
+            r2 = go(captured[k], 'parent')
+            if r2 is None:
+                return None
+            return (r2[0], list(r2[1]) + fs[1:])
+        return (base, fs)
+
+    def go(t, side):
+        if t is None:
+            return None
+        if t[0] == 'param':
+            if side == 'closure':
+                return ('env', []) if t[1] == 1 else ('item', [])
+            ty = fn['locals'][t[1]]['ty'] if fn else '?'
+            if 'VsockEvent' in ty:
+                return ('event', [])
+            if ty == 'u64':
+                return ('localcid', [])
+            if 'VsockAddr' in ty:
+                return ('peer', [])
+            if ty == 'u32':
+                return ('port', [])
+            return ('p%d' % t[1], [])
+        if t[0] in ('load', 'load0', 'ref'):
+            return of_loc(t[1], side)
+        if t[0] == 'refto':
+            return go(t[1], side)
+        if t[0] in ('conv', 'idcall'):
+            return go(t[2], side)
+        if t[0] == 'cast':
+            return go(t[3], side)
+        return None
+    return go(t, side)
+
+
+def x5_predicates(F, R):
+    cands = [b for b in F.bodies.values() if F.handwritten(b) and b['kind'] == 'Fn' and 'connectionmanager' in b['id']
+             and 'Connection' in b.get('sig', '') and 'usize' in b.get('sig', '')]
+    nfold = 0
+    for b in cands:
+        sg = supergraph(F, b['id'])
+        S = sg.sym
+        for n in sg.nodes:
+            if not (n.kind == 'assign' and n.d['rv']['rv'] == 'agg' and n.d['rv'].get('kind') == 'closure'):
+                continue
+            cid = n.d['rv']['closure']
+            cb = F.bodies.get(cid)
+            if cb is None or cb['locals'][0]['ty'] != 'bool':
+                continue
+            ctx_fn = sg.ctxs[n.ctx].fn
+            # captured operands are resolved in the context of the function that creates the closure; parameters of an
+            # inlined callee are resolved to the caller's arguments by Sym
+            captured = [S.operand(n.id, o) for o in n.d['rv']['ops']]
+            sgc = supergraph(F, cid)
+            where = fn_site(F, cid)
+            inst = '%s:%s' % (b['id'], cid.rsplit('::', 1)[1])
+            try:
+                paths = PathEnum(sgc).run()
+            except PathLimit as e:
+                R.abstain('X5', inst, str(e), where)
+                continue
+            has_event = 'VsockEvent' in b.get('sig', '')
+            # scenario values
+            base = {'ev.source.cid': 2, 'ev.source.port': 1024, 'ev.destination.cid': 3, 'ev.destination.port': 5000,
+                    'c.dst.cid': 2, 'c.dst.port': 1024, 'c.src_port': 5000, 'localcid': 3}
+            if has_event:
+                perturb = ['ev.source.cid', 'ev.source.port', 'ev.destination.cid', 'ev.destination.port', 'c.dst.cid', 'c.dst.port', 'c.src_port', 'localcid']
+            else:
+                perturb = ['ev.source.cid', 'ev.source.port', 'ev.destination.port', 'c.dst.cid', 'c.dst.port', 'c.src_port']
+
+            def key_of(t):
+                cp = canon_path(F, t, 'closure', S=S, captured=captured, fn=sg.entry_fn)
+                if cp is None:
+                    return None
+                basen, fs = cp
+                fs = [f for f in fs if f not in ('0', '1', '[]')] if basen == 'item' else fs
+                if basen == 'event':
+                    return 'ev.' + '.'.join(fs)
+                if basen == 'peer':
+                    return 'ev.source.' + '.'.join(fs)
+                if basen == 'port' and not fs:
+                    return 'ev.destination.port'
+                if basen == 'localcid' and not fs:
+                    return 'localcid'
+                if basen == 'item' and fs and fs[0] == 'info':
+                    return 'c.' + '.'.join(fs[1:])
+                return None
+            bad = None
+            rows = 0
+            for pert in [None] + perturb:
+                for delta in (1, 0x100000000):
+                    env = dict(base)
+                    if pert:
+                        env[pert] = env[pert] + delta
+                        if pert.endswith('port') and delta > 0xffffffff:
+                            continue
+                    elif delta != 1:
+                        continue
+
+                    def leaf(t, env=env):
+                        k = key_of(t)
+                        if k in env:
+                            return env[k]
+                        raise Unfoldable('%s [%s]' % (fmt(t)[:70], k))
+                    fo = Folder(leaf)
+                    try:
+                        hit = [p_ for p_ in paths if path_holds(fo, p_)]
+                        if len(hit) != 1 or hit[0].panicked:
+                            bad = 'predicate has %d feasible paths' % len(hit)
+                            break
+                        got = fo.ev(hit[0].ret)
+                    except Unfoldable as e:
+                        bad = 'unfoldable: %s' % e
+                        break
+                    rows += 1
+                    want = 1 if pert is None else 0
+                    if bool(got) != bool(want):
+                        if pert is None:
+                            bad = 'an event whose source, destination CID and destination port all match the connection is not matched'
+                        else:
+                            bad = ('%s differs (%d vs %d) and everything else matches, yet the %s is selected: traffic for another '
+                                   '%s reaches this connection') % (pert.replace('ev.', 'event.').replace('c.', 'connection.'), env[pert], base[pert],
+                                                                  'connection', 'address' )
+                        break
+                if bad:
+                    break
+            R.tables += rows
+            nfold += 1
+            if bad and bad.startswith('unfoldable'):
+                R.abstain('X5', inst, bad, where)
+                continue
+            R.check(bad is None, 'X5', inst, where, 'selection predicate true iff the full %s matches (%d perturbation rows)' % (
+                'source/destination 4-tuple incl. local CID' if has_event else '(peer, local port) pair', rows),
+                'connection selection predicate: %s' % bad)
+    R.count('selection_predicates', nfold)
+
+
 def run(F, R):
+    x5_predicates(F, R)
     M = model(F)
     M.require_rings()
     roles = C05.classify_api(C05.queue_api(F, M))
